@@ -131,6 +131,18 @@ type SCEVGenericExpr struct {
 	Op token.Token
 	X  SCEV
 	Y  SCEV
+
+	size int // number of nodes of the fully expanded expression tree (0 = not recorded)
+}
+
+// MaxSCEVNodes bounds the expanded size of an expression built from shared sub-expressions.
+const MaxSCEVNodes = 512
+
+func scevSize(s SCEV) int {
+	if g, ok := s.(*SCEVGenericExpr); ok && g.size > 0 {
+		return g.size
+	}
+	return 1
 }
 
 func (s *SCEVGenericExpr) EvaluateAt(k *big.Int, cache map[SCEV]*big.Int) *big.Int {
@@ -680,7 +692,19 @@ func computeSCEVBody(v ssa.Value, loop *Loop, depth int) SCEV {
 	if binOp, ok := v.(*ssa.BinOp); ok {
 		left := computeSCEV(binOp.X, loop, depth+1)
 		right := computeSCEV(binOp.Y, loop, depth+1)
-		return foldSCEV(binOp.Op, left, right, loop)
+		// Expressions are memoised per SSA value, so a value used twice (x = y + y) shares
+		// its sub-expression: the DAG stays small while the TREE that every recursive
+		// consumer (printing, invariance checks, evaluation) walks doubles at each level.
+		// Keep expressions whose expanded size exceeds the budget opaque.
+		size := scevSize(left) + scevSize(right) + 1
+		if size > MaxSCEVNodes {
+			return &SCEVUnknown{Value: v, IsInvariant: left.IsLoopInvariant(loop) && right.IsLoopInvariant(loop)}
+		}
+		res := foldSCEV(binOp.Op, left, right, loop)
+		if g, ok := res.(*SCEVGenericExpr); ok {
+			g.size = size
+		}
+		return res
 	}
 	if instr, ok := v.(ssa.Instruction); ok {
 		block := instr.Block()
